@@ -6,6 +6,7 @@ Answer:   `model=<ok | reject@i:<event>:<pc>>[ mon=<failed monitor>…] holds=<0
 `holds` is the conjunction of the property monitors below, which are evaluated on the raw event list only
 (counting Start/exit events, member ids, back-off markers) — they do not use the model.
 -/
+import KafkaVerif.Model.GroupDeadlines
 import KafkaVerif.Base.Proto
 import KafkaVerif.Model.GroupRun
 import Oracle.GroupWireOps
@@ -210,9 +211,42 @@ def monWatchAll (nWatch : Nat) (es : List Ev) : Option String :=
       | none => none
     | _ => none
 
+/-- A member id the coordinator has just assigned (JoinGroup answered successfully) IS the group's current member id:
+the next JoinGroup carries it, unless a LeaveGroup for it was attempted in between (`leave m` = `leaveGroup(m)` entered).
+Otherwise the coordinator is left with a member — possibly the elected leader — that nobody will ever sync, heartbeat or
+leave for, and the retry joins as a second membership ("closing the group sends LeaveGroup for the current member id").
+The obligation ends at the next JoinGroup request (what the code does with an id after a REJECTED join is not judged). -/
+def monMemberKept (es : List Ev) : Option String :=
+  let check (cur : Option String) (mi : String) : Option String :=
+    match cur with
+    | some m => if mi != m then some s!"member-id-dropped:{if m == "" then "_" else m}" else none
+    | none => none
+  let rec go (cur : Option String) : List Ev → Option String
+    | [] => none
+    | .joinOk mi m _ _ :: r => match check cur mi with | some v => some v | none => go (some m) r
+    | .joinErr mi _ :: r => match check cur mi with | some v => some v | none => go none r
+    | .leave m :: r => go (if cur == some m then none else cur) r
+    | _ :: r => go cur r
+  go none es
+
+/-- "the generation ends when the group is closed": when `run` exits, every generation it created has been closed
+(`gen.close()`: done closed, started functions waited for) — also one that was still waiting to be handed to `Next`;
+and no heartbeat / watcher poll is issued after `run` exited -/
+def monClosedAtExit (es : List Ev) : Option String :=
+  scan (fun past e =>
+    match e with
+    | .runExit =>
+      let made := past.filterMap (fun p => match p with | .gNew g _ _ => some g | _ => none)
+      match made.find? (fun g => !(past.any fun p => match p with | .gClose g' _ _ => g' == g | _ => false)) with
+      | some g => some s!"run-exit-with-live-generation:g{g}"
+      | none => none
+    | .hbCall g _ _ => if past.any (· == .runExit) then some s!"heartbeat-after-run-exit:g{g}" else none
+    | .watchCall g _ => if past.any (· == .runExit) then some s!"watch-after-run-exit:g{g}" else none
+    | _ => none) [] es 0
+
 def monitors (nWatch : Nat) (es : List Ev) : List String :=
   [monOneLive es, monCtx es, monLeave es, monBackoff es, monHeartbeat es, monWatch es, monWatchAll nWatch es,
-   monLateStart es].filterMap id
+   monLateStart es, monMemberKept es, monClosedAtExit es].filterMap id
 
 def showPC (p : PC) : String := (toString (repr p)).replace "\n" " "
 
@@ -252,6 +286,30 @@ def answer (line : String) : String :=
       if bad.isEmpty && el > 0 then s!"model={_impl} holds=1"
       else s!"model=options-not-passed-through:{",".intercalate bad} holds=0"
     | ["wirereq", method, desc] => KV.OracleGW.opWireReq method desc _impl
+    | "deadlines" :: cfg =>
+      -- the library's own connection path against a wire-level coordinator that holds answers (go/cmd/c15/deadlines.go)
+      let kv (l : List String) (k : String) : Option Nat :=
+        ((l.find? (fun x => x.startsWith (k ++ "="))).map (fun x => (x.drop (k.length + 1)).toString)).bind (·.toNat?)
+      match kv cfg "timeout", kv cfg "rebalance", kv cfg "session", kv cfg "joinheld", kv cfg "syncheld" with
+      | some to, some rb, some se, some jh, some sh =>
+        let t : KV.Group.Timeouts := ⟨to, rb, se⟩
+        let near (h d : Nat) : Bool := decide (h + 30 > d ∧ h < d + 30)   -- too close to the deadline to call
+        if near jh (KV.Group.callDeadline t .joinGroup) || near sh (KV.Group.callDeadline t .syncGroup) then "bad-op"
+        else
+          let (j, s) := KV.Group.requestsForFirstGeneration t jh sh
+          let obs := words _impl
+          let hb := ((obs.find? (fun x => x.startsWith "hbend=")).map (fun x => (x.drop 6).toString)).bind (·.toInt?)
+          let hbTxt := match hb with
+            -- measured from the request's ARRIVAL at the coordinator (the deadline was set before it was written): a
+            -- loaded machine shortens the lower end, wake-ups lengthen the upper (a whole second of slack: the scenario that
+            -- matters configures session / rebalance time-outs of 3 s, so a deadline that includes one of them, or no
+            -- deadline at all, shows as -2 = "still alive after 2 s")
+            | some h => if decide ((to : Int) ≤ 4 * h ∧ h ≤ (to : Int) + 1000) then toString h
+                        else s!"{h}(expected-{to / 4}..{to + 1000})"
+            | none => "?"
+          let m := s!"joins={j} syncs={s} gen=ok hbend={hbTxt} leave=m1"
+          s!"model={m} holds={if m == _impl then 1 else 0}"
+      | _, _, _, _, _ => "bad-op"
     | ["defaults"] =>
       let m := KV.Group.expectedDefaultsObservation
       s!"model={m} holds={if m == _impl then 1 else 0}"
